@@ -6,15 +6,33 @@ Oracle on the REAL `Matryoshka` (independent of the Lean model; exact Fractions)
             preference of exactly 0 is adopted when 0 is inside the intersection and neither end of
             it lies inside the exclusion zone), admissible = (system bounds ∩ bounds of all
             strictly-higher-priority actors) minus the open exclusion zone;
-  report  : for every actor a and probe power x:  adjust_to_bounds(x) on the report for a's priority
-            returns (x, x)  <=>  proposing x as a (lower priorities stating no preference) yields x;
-  empty   : adding a proposal with neither power nor bounds (new actor, any priority) changes nothing.
+  report  : for every priority level q (of an actor, or between/below/above the actors = a new actor
+            without bounds) and probe power x:  adjust_to_bounds(x) on the report sent for q returns
+            (x, x)  <=>  proposing x at q (lower priorities stating no preference) yields x.  Both sides
+            are observed on the real object (get_status vs. calculate_target_power);
+  empty   : adding a proposal with neither power nor bounds (new actor, any priority) changes nothing;
+  history : the clauses quantify over histories.  Operation scripts on ONE manager interleave proposals,
+            refreshes, `drop_old_proposals` at instants where some but not all proposals expire, and status
+            reads taken BEFORE any new proposal arrives.  At every status read whose live proposal set
+            (reference semantics: latest proposal per actor that no executed drop has expired) is
+            compatible, (i) the report clause is evaluated with the report as read from the manager under
+            test and the adoption observed on a copy of that very manager, and (ii) the report must answer
+            every probe like the report of a fresh manager fed only the live proposals (the effective range
+            is a function of the live set — C03 —, hence so is a report that equals it).
+Compatible sets: the literal reading (intersect by descending priority; the intersection minus the zone
+never empties).  Bounds that lie *strictly inside the exclusion zone with both ends* contain no usable
+power at all; the manager documents that such bounds "don't narrow the bounds further", i.e. they
+restrict nobody.  Sets that are compatible once those void bounds are disregarded are covered too
+(tag `void-bounds`), but only with the clauses that need no notion of "admissible value" for the void
+actor: report and empty.  `closest` is asserted for literally compatible sets only.
 Regime `SharedPriority` (input predicate: two live proposals have the same priority) marks the
 known finding: reports are keyed by priority only.
-Correspondence: operation scripts (propose/status/adjust) through the Lean driver, exact equality.
+Correspondence: every script (proposals, drops, every status/adjust probe) through the Lean driver,
+exact equality.
 """
 from __future__ import annotations
 
+import copy
 import json
 import pathlib
 from fractions import Fraction
@@ -23,8 +41,14 @@ from . import matryoshka_gen as g
 from .common import Ctx, python_flags, rat
 
 RULE = ("conflict-free proposal sets (2-6 actors, bounds built around a common admissible core point, values on a "
-        "lattice of anchors ± {0,1/2,1}); probes x at every interval end ± {0,1/2}; non-trivial = >=2 proposals with "
-        "bounds and an exclusion zone or a preference outside the admissible set; distinct by canonical JSON hash")
+        "lattice of anchors ± {0,1/2,1}), incl. sets where 1-2 higher-priority actors state bounds strictly inside "
+        "the exclusion zone (with/without preference) above narrowing intermediate actors; reports queried at every "
+        "priority level (actors, between, below, above) with probes x at every interval end ± {0,1/2} and at the ends "
+        "of the reported range; history scripts (staggered proposals, refreshes, drops around the expiry instant of "
+        "a silent actor, status reads before any new proposal); non-trivial = >=2 proposals with bounds and an "
+        "exclusion zone or a preference outside the admissible set; distinct by canonical JSON hash")
+
+HALF = Fraction(1, 2)
 
 
 def F(x):
@@ -77,6 +101,26 @@ def eff_excl(sb):
     return None if (lo == 0 and hi == 0) else (lo, hi)
 
 
+def is_void(p, ex) -> bool:
+    """Input predicate: the proposal states both bounds and both lie strictly inside the exclusion zone
+    (no usable power satisfies them; documented as not restricting anybody)."""
+    return (ex is not None and p["lo"] is not None and p["hi"] is not None
+            and in_zone(ex, F(p["lo"])) and in_zone(ex, F(p["hi"])))
+
+
+def compatibility(sb, props) -> str | None:
+    """'literal' | 'void-discounted' | None — computed from the input only."""
+    if sb["incl"] is None or not g.sb_in_domain(sb):
+        return None
+    if conflict_free(sb, props):
+        return "literal"
+    ex = eff_excl(sb)
+    if any(is_void(p, ex) for p in props):
+        if conflict_free(sb, [dict(p, lo=None, hi=None) if is_void(p, ex) else p for p in props]):
+            return "void-discounted"
+    return None
+
+
 def closest(I, ex, v):
     lo, hi = I
     if v == 0 and lo <= 0 <= hi and not in_zone(ex, lo) and not in_zone(ex, hi):
@@ -105,6 +149,7 @@ def expected_target(sb, props):
     return exp, ambiguous
 
 
+# --------------------------------------------------------------------------- generators
 def gen_case(rng, distinct: bool) -> dict:
     anchors = g.lattice(rng)
     for _ in range(50):
@@ -133,6 +178,121 @@ def gen_case(rng, distinct: bool) -> dict:
     return {"sb": {"incl": ["-10", "10"], "excl": None}, "props": []}
 
 
+def gen_void_case(rng) -> dict:
+    """3-6 actors with distinct priorities and a non-trivial exclusion zone; 1-2 actors (not the lowest) state
+    bounds with BOTH ends strictly inside the zone (with / without a preference); the others are built around a
+    common admissible core point, and at least one actor below the first void one states bounds."""
+    s = rng.choice([1, 1, 10, 100])
+    widths = [2, 3, 5, 10, 30]
+    elo = -Fraction(rng.choice(widths) * s)
+    ehi = -elo if rng.random() < 0.5 else Fraction(rng.choice(widths) * s)
+    outs = [0, HALF, 1, 5 * s, 20 * s, 170 * s]
+    lo, hi = elo - rng.choice(outs), ehi + rng.choice(outs)
+    r = rng.random()
+    if r < 0.06:        # one end of the system bounds inside the zone
+        lo = elo + 1
+    elif r < 0.12:
+        hi = ehi - 1
+    ins = sorted(x for x in {elo + HALF, elo + 1, ehi - HALF, ehi - 1, Fraction(0), HALF, -HALF, Fraction(1),
+                             Fraction(-1), (elo + ehi) / 2} if elo < x < ehi)
+    adm = sorted(x for x in {lo, hi, elo, ehi, elo - HALF, elo - 1, ehi + HALF, ehi + 1, lo + 1, hi - 1,
+                             (lo + elo) / 2, (hi + ehi) / 2} if lo <= x <= hi and not elo < x < ehi)
+    core = rng.choice(adm)
+    anchors = sorted({Fraction(0), elo, ehi, lo, hi, core, rng.choice(adm)})
+    n = rng.randint(3, 6)
+    prios = sorted(rng.sample(range(-4, 9), n), reverse=True)
+    srcs = rng.sample(g.SRC_IDS, n)
+    first_void = rng.randint(0, n - 3) if rng.random() < 0.85 else rng.randint(0, n - 2)
+    voids = {first_void}
+    if rng.random() < 0.3:
+        voids.add(rng.randint(0, n - 2))
+    forced = rng.randint(first_void + 1, max(first_void + 1, n - 2))     # an intermediate actor with bounds
+    props = []
+    for i, (pr, src) in enumerate(zip(prios, srcs)):
+        if i in voids:
+            a, b = rng.choice(ins), rng.choice(ins)
+            plo, phi = min(a, b), max(a, b)
+            r = rng.random()
+            pref = None if r < 0.4 else (rng.choice(ins) if r < 0.6 else g.near(rng, anchors))
+        else:
+            plo = None if rng.random() < 0.35 else min(core, g.near(rng, anchors))
+            phi = None if rng.random() < 0.35 else max(core, g.near(rng, anchors))
+            if i == forced and plo is None and phi is None:
+                if rng.random() < 0.5:
+                    plo = min(core, g.near(rng, anchors))
+                else:
+                    phi = max(core, g.near(rng, anchors))
+            if rng.random() < 0.15:
+                plo = core
+            pref = None if rng.random() < 0.35 else g.near(rng, anchors)
+        props.append({"prio": pr, "src": src, "pref": rat(pref), "lo": rat(plo), "hi": rat(phi), "created": "0"})
+    rng.shuffle(props)
+    return {"sb": {"incl": [rat(lo), rat(hi)], "excl": [rat(elo), rat(ehi)]}, "props": props}
+
+
+def query_levels(props) -> list[int]:
+    """Every priority level a report can be asked for: each actor's, the level just below each actor
+    (between two actors / below the lowest) and the level above the highest."""
+    prios = {p["prio"] for p in props}
+    lv = set(prios) | {pr - 1 for pr in prios}
+    if prios:
+        lv.add(max(prios) + 1)
+    return sorted(lv, reverse=True)
+
+
+def gen_expiry_script(rng) -> dict:
+    """One manager, constant system bounds: staggered proposals, status reads, then rounds of
+    {some actors refresh, the others stay silent; drop at an instant around the expiry of a silent actor
+    (so that some but not all proposals expire); optional re-evaluation without a proposal; status reads for
+    several priority levels BEFORE any new proposal arrives}."""
+    r = rng.random()
+    base = gen_void_case(rng) if r < 0.35 else gen_case(rng, distinct=rng.random() < 0.85)
+    sb, props = base["sb"], base["props"]
+    if len(props) < 2:
+        base = gen_void_case(rng)
+        sb, props = base["sb"], base["props"]
+    levels = query_levels(props)
+    t = Fraction(rng.randint(0, 50))
+    ops: list[dict] = []
+    created: dict[tuple, Fraction] = {}
+
+    def propose(p):
+        nonlocal t
+        q = dict(p, created=rat(t))
+        if rng.random() < 0.2:
+            q["pref"] = rat(None if rng.random() < 0.3 else (F(p["pref"]) or Fraction(0)) + rng.choice([-1, 1, HALF]))
+        ops.append({"op": "calc", "p": q, "sb": sb, "must": rng.random() < 0.3})
+        created[(p["prio"], p["src"])] = t
+        t += rng.choice([0, 0, 1, 5, 10, 30])
+
+    def reads(k):
+        for _ in range(k):
+            q = rng.choice(levels)
+            ops.append({"op": "status", "prio": q, "sb": sb})
+
+    order = list(props)
+    rng.shuffle(order)
+    for p in order:
+        propose(p)
+    reads(rng.randint(1, 3))
+    for _ in range(rng.randint(1, 3)):
+        k = rng.randint(1, max(1, len(props) - 1))
+        silent = rng.sample(props, k)
+        for p in props:
+            if p not in silent and rng.random() < 0.7:
+                propose(p)
+        if rng.random() < 0.5:
+            reads(rng.randint(1, 2))
+        c = created[(lambda p: (p["prio"], p["src"]))(rng.choice(silent))]
+        t = max(t, c + g.MAX_AGE + rng.choice([-1, 0, HALF, 1, 1, 10, 30]))
+        ops.append({"op": "drop", "now": rat(t), "maxAge": rat(g.MAX_AGE)})
+        if rng.random() < 0.4:
+            ops.append({"op": "calc", "p": None, "sb": sb, "must": rng.random() < 0.5})
+        reads(rng.randint(1, 4))
+    return {"ops": ops}
+
+
+# --------------------------------------------------------------------------- oracle
 def target_of(sb, props, order=None):
     m = g.new_manager()
     res = None
@@ -143,59 +303,179 @@ def target_of(sb, props, order=None):
     return m, (None if res is None else Fraction(res))
 
 
-def check_case(ctx: Ctx, case: dict, rng) -> dict:
+def probe_points(sb, props) -> list[Fraction]:
+    I0 = (F(sb["incl"][0]), F(sb["incl"][1]))
+    ex = eff_excl(sb)
+    ends = {I0[0], I0[1], Fraction(0)} | ({ex[0], ex[1]} if ex else set())
+    for p in props:
+        ends |= {F(p[k]) for k in ("lo", "hi", "pref") if p[k] is not None}
+    return sorted({e_ + d for e_ in ends for d in (0, HALF, -HALF)})
+
+
+def pick_probes(rng, probes, reps, n) -> list[Fraction]:
+    """All probes (n None), else the ends of the reported range(s) ± 1/2 plus n sampled ones."""
+    if n is None:
+        extra = set(probes)
+    else:
+        extra = set(rng.sample(probes, min(n, len(probes))))
+    for rep in reps:
+        b = g.report_bounds(rep)
+        if b is not None:
+            extra |= {b[0], b[1], b[0] - HALF, b[0] + HALF, b[1] - HALF, b[1] + HALF}
+    return sorted(extra)
+
+
+def check_report(ctx: Ctx, sb, props, q, rep, xs, doc, now="0", base=None) -> list[tuple[Fraction, list]]:
+    """The report clause for priority level q.  `rep` is the report as read from the manager under test;
+    the adoption is observed on `base` (a copy of the manager under test; a fresh manager fed `props` if None)
+    after the actors below q have withdrawn their preference (bounds kept)."""
+    mine = [p for p in props if p["prio"] == q]
+    regime = "SharedPriority" if len(mine) > 1 else None
+    if mine:
+        actor = min(mine, key=lambda p: p["src"])
+    else:
+        actor = {"prio": q, "src": "probe-actor", "pref": None, "lo": None, "hi": None, "created": now}
+    tm = base if base is not None else g.new_manager()
+    for p in props:
+        if p["prio"] < q and p["pref"] is not None:
+            g.run_op_impl(tm, {"op": "calc", "p": dict(p, pref=None), "sb": sb, "must": True})
+        elif base is None:
+            g.run_op_impl(tm, {"op": "calc", "p": p, "sb": sb, "must": True})
+    outs = []
+    for x in xs:
+        adj = g.adjust_on(rep, x)
+        outs.append((x, adj))
+        predicted = adj == [rat(x), rat(x)]
+        t2 = g.run_op_impl(tm, {"op": "calc", "p": dict(actor, pref=rat(x), created=now), "sb": sb, "must": True})
+        adopted = t2 is not None and Fraction(t2) == x
+        if predicted != adopted:
+            ctx.violation("report-is-effective-range", dict(doc, query=q, actor=actor, x=rat(x)),
+                          {"reported_bounds": g.report_json(rep), "adjust_to_bounds": adj,
+                           "target_when_proposed": t2}, regime)
+    return outs
+
+
+def check_case(ctx: Ctx, case: dict, rng, full: bool = False) -> dict:
     sb, props = case["sb"], case["props"]
     shared = len({p["prio"] for p in props}) < len(props)
     regime = "SharedPriority" if shared else None
-    cf = conflict_free(sb, props)
-    tags = {"conflict-free" if cf else "conflicting", "shared-prio" if shared else "distinct-prio"}
+    compat = compatibility(sb, props) if props else None
+    cf = compat == "literal"
+    ex = eff_excl(sb) if sb["incl"] is not None else None
+    tags = {"conflict-free" if cf else ("void-compatible" if compat else "conflicting"),
+            "shared-prio" if shared else "distinct-prio"}
+    if any(is_void(p, ex) for p in props):
+        tags.add("void-bounds")
     script_ops = [{"op": "calc", "p": p, "sb": sb, "must": True} for p in props]
     m, tgt = target_of(sb, props)
-    if cf and props:
-        exp, amb = expected_target(sb, props)
-        if not amb and tgt != exp:
-            ctx.violation("closest", case, {"target": rat(tgt), "expected": rat(exp)}, regime)
+    if compat:
+        if cf:
+            exp, amb = expected_target(sb, props)
+            if not amb and tgt != exp:
+                ctx.violation("closest", case, {"target": rat(tgt), "expected": rat(exp)}, regime)
         # empty proposal of a new actor
-        e = {"prio": rng.choice([p["prio"] for p in props] + [-9, 20, 2]) if not shared else rng.randint(-9, 20),
-             "src": "empty-actor", "pref": None, "lo": None, "hi": None, "created": "0"}
-        if not shared and e["prio"] in {p["prio"] for p in props}:
-            e["prio"] = 21
+        e = case.get("empty")
+        if e is None:
+            e = {"prio": rng.choice([p["prio"] for p in props] + [-9, 20, 2]) if not shared else rng.randint(-9, 20),
+                 "src": "empty-actor", "pref": None, "lo": None, "hi": None, "created": "0"}
+            if not shared and e["prio"] in {p["prio"] for p in props}:
+                e["prio"] = 21
         pos = rng.randint(0, len(props))
         _, tgt_e = target_of(sb, props, props[:pos] + [e] + props[pos:])
         if tgt_e != tgt:
             ctx.violation("empty-proposal-neutral", {"sb": sb, "props": props, "empty": e},
                           {"target": rat(tgt), "with_empty": rat(tgt_e)}, regime)
-        # report vs effective range, for up to 3 actors
-        I0 = (F(sb["incl"][0]), F(sb["incl"][1]))
-        ex = eff_excl(sb)
-        ends = {I0[0], I0[1], Fraction(0)} | ({ex[0], ex[1]} if ex else set())
-        for p in props:
-            ends |= {F(p[k]) for k in ("lo", "hi", "pref") if p[k] is not None}
-        probes = sorted({e_ + d for e_ in ends for d in (0, Fraction(1, 2), -Fraction(1, 2))})
-        for a in rng.sample(props, min(3, len(props))):
-            a_regime = "SharedPriority" if any(q is not a and q["prio"] == a["prio"] for q in props) else None
-            lower_cleared = [dict(q, pref=None) if q["prio"] < a["prio"] else q for q in props]
-            for x in rng.sample(probes, min(6, len(probes))):
-                lo_, hi_ = g.run_op_impl(m, {"op": "adjust", "prio": a["prio"], "sb": sb, "power": rat(x)})
-                predicted = (lo_ == rat(x) and hi_ == rat(x))
-                trial = [dict(q, pref=rat(x)) if q is a or (q["prio"], q["src"]) == (a["prio"], a["src"]) else q
-                         for q in lower_cleared]
-                # the set with a's preference replaced must itself be conflict-free (bounds unchanged => it is)
-                _, t2 = target_of(sb, trial)
-                adopted = (t2 == x)
-                script_ops.append({"op": "adjust", "prio": a["prio"], "sb": sb, "power": rat(x)})
-                if predicted != adopted:
-                    ctx.violation("report-is-effective-range",
-                                  {"sb": sb, "props": props, "actor": a, "x": rat(x)},
-                                  {"adjust_to_bounds": [lo_, hi_], "target_when_proposed": rat(t2)}, a_regime)
-            script_ops.append({"op": "status", "prio": a["prio"], "sb": sb})
+        # report vs effective range
+        levels = query_levels(props)
+        if not (full or compat == "void-discounted"):
+            mine = sorted({p["prio"] for p in props})
+            levels = rng.sample(mine, min(3, len(mine))) + [rng.choice(levels)]
+            levels = sorted(set(levels), reverse=True)
+        probes = probe_points(sb, props)
+        for q in levels:
+            rep = g.get_report(m, q, sb)
+            xs = pick_probes(rng, probes, [rep], None if full else 6)
+            for x, _ in check_report(ctx, sb, props, q, rep, xs, {"sb": sb, "props": props}):
+                script_ops.append({"op": "adjust", "prio": q, "sb": sb, "power": rat(x)})
+            script_ops.append({"op": "status", "prio": q, "sb": sb})
+            if q not in {p["prio"] for p in props}:
+                tags.add("query-between")
     if any(p["lo"] is not None or p["hi"] is not None for p in props):
         tags.add("bounded")
-    if eff_excl(sb):
+    if ex:
         tags.add("excl-zone")
-    nontrivial = cf and len(props) >= 2 and "bounded" in tags
+    nontrivial = bool(compat) and len(props) >= 2 and "bounded" in tags
     ctx.case(case, tags=sorted(tags), nontrivial=nontrivial)
     return {"ops": script_ops}
+
+
+def check_history(ctx: Ctx, script: dict, rng, full: bool = False) -> tuple[dict, dict]:
+    """Run an operation script on ONE real manager; evaluate the report clauses at every status read.
+    Returns (script augmented with the adjust probes, implementation outputs) for the correspondence."""
+    ops = script["ops"]
+    m = g.new_manager()
+    ops_aug: list[dict] = []
+    outs: list = []
+    tags: set[str] = set()
+    now = Fraction(0)
+    partial_drop_seen = False
+    checked = 0
+    for i, op in enumerate(ops):
+        kind = op["op"]
+        if kind == "calc" and op["p"] is not None:
+            now = max(now, Fraction(op["p"]["created"]))
+        if kind == "drop":
+            now = max(now, Fraction(op["now"]))
+            before = g.live_proposals(ops, i)
+            after = g.live_proposals(ops, i + 1)
+            if after and len(after) < len(before):
+                partial_drop_seen = True
+                tags.add("partial-expiry")
+        if kind != "status":
+            ops_aug.append(op)
+            outs.append(g.run_op_impl(m, op))
+            continue
+        q, sb = op["prio"], op["sb"]
+        rep = g.get_report(m, q, sb)
+        ops_aug.append(op)
+        outs.append(g.report_json(rep))
+        live = g.live_proposals(ops, i)
+        compat = compatibility(sb, live) if live else None
+        if not compat:
+            continue
+        checked += 1
+        if partial_drop_seen:
+            tags.add("status-after-partial-expiry")
+        if compat == "void-discounted":
+            tags.add("void-bounds")
+        # (ii) a fresh manager fed only the live proposals
+        fresh = g.new_manager()
+        for p in live:
+            g.run_op_impl(fresh, {"op": "calc", "p": p, "sb": sb, "must": True})
+        rep_f = g.get_report(fresh, q, sb)
+        xs = pick_probes(rng, probe_points(sb, live), [rep, rep_f], None if full else 4)
+        doc = {"ops": ops[: i + 1]}
+        for x in xs:
+            a1, a2 = g.adjust_on(rep, x), g.adjust_on(rep_f, x)
+            if a1 != a2:
+                ctx.violation("report-depends-only-on-live-proposals", dict(doc, query=q, x=rat(x)),
+                              {"live": live, "report": g.report_json(rep), "adjust_to_bounds": a1,
+                               "fresh_manager_report": g.report_json(rep_f), "fresh_adjust_to_bounds": a2})
+                break
+        # (i) the report as read vs. what the manager under test (a copy of it) does with the preference
+        try:
+            base = copy.deepcopy(m)
+        except Exception:  # noqa: BLE001  (a manager that cannot be copied: observe the adoption on a fresh one)
+            base = None
+            tags.add("manager-not-copyable")
+        for x, adj in check_report(ctx, sb, live, q, rep, xs, doc, now=rat(now), base=base):
+            ops_aug.append({"op": "adjust", "prio": q, "sb": sb, "power": rat(x)})
+            outs.append(adj)
+    if any(o["op"] == "drop" for o in ops):
+        tags.add("expiry")
+    tags.add("history")
+    ctx.case(script, tags=sorted(tags), nontrivial=checked > 0 and "status-after-partial-expiry" in tags)
+    return {"ops": ops_aug}, {"out": outs}
 
 
 def load_corpus() -> list[dict]:
@@ -206,23 +486,34 @@ def load_corpus() -> list[dict]:
 def run(ctx: Ctx) -> None:
     python_flags()
     ctx.rule = RULE
-    n = ctx.budget(700, 20000)
-    scripts = []
-    cases = load_corpus() + []
-    for i in range(n):
+    scripts, impl_outs = [], []
+
+    def do_case(case, rng, full=False):
+        s = check_case(ctx, case, rng, full)
+        scripts.append(s)
+        impl_outs.append(g.run_script_impl(s)[1])
+
+    def do_history(script, rng, full=False):
+        s, o = check_history(ctx, script, rng, full)
+        scripts.append(s)
+        impl_outs.append(o)
+
+    for i, case in enumerate(load_corpus()):
+        (do_history if "ops" in case else do_case)(case, ctx.subrng("corpus", i), True)
+    for i in range(ctx.budget(700, 16000)):
         rng = ctx.subrng("case", i)
-        cases.append(gen_case(rng, distinct=rng.random() < 0.8))
-    for i, case in enumerate(cases):
-        scripts.append(check_case(ctx, case, ctx.subrng("probe", i)))
-    # correspondence: the scripts (proposals, then every adjust/status probe) through the Lean model
-    impl_outs = [g.run_script_impl(s)[1] for s in scripts]
-    ctx.compare("Matryoshka", scripts, impl_outs, what="C04 script outputs")
-    # plus general scripts with distinct priorities
-    gen_scripts = []
+        do_case(gen_case(rng, distinct=rng.random() < 0.8), ctx.subrng("probe", i))
+    for i in range(ctx.budget(200, 3000)):
+        do_case(gen_void_case(ctx.subrng("void", i)), ctx.subrng("void-probe", i))
+    for i in range(ctx.budget(250, 3000)):
+        do_history(gen_expiry_script(ctx.subrng("expiry", i)), ctx.subrng("expiry-probe", i))
+    # general scripts (changing bounds, replacements, arbitrary proposals): same history oracle where it applies
     for i in range(ctx.budget(300, 8000)):
         rng = ctx.subrng("script", i)
-        gen_scripts.append(g.gen_script(rng, rng.randint(4, 20), in_domain=True, distinct_prios=rng.random() < 0.7))
-    ctx.compare("Matryoshka", gen_scripts, [g.run_script_impl(s)[1] for s in gen_scripts], what="Matryoshka scripts")
+        do_history(g.gen_script(rng, rng.randint(4, 20), in_domain=True, distinct_prios=rng.random() < 0.7),
+                   ctx.subrng("script-probe", i))
+    # correspondence: every script (proposals, drops, every adjust/status probe) through the Lean model
+    ctx.compare("Matryoshka", scripts, impl_outs, what="C04 script outputs")
     from . import powerpath  # full-stack stage: the same property through the public pool API (real actors)
     powerpath.run_stage(ctx, {"C04-report"}, n_quick=60, n_thorough=800)
 
@@ -230,8 +521,14 @@ def run(ctx: Ctx) -> None:
 def replay(ctx: Ctx, data: dict) -> None:
     python_flags()
     case = data.get("case") or {}
-    if "sb" in case and "props" in case:
-        s = check_case(ctx, {"sb": case["sb"], "props": case["props"]}, ctx.subrng("replay"))
+    if "ops" in case:
+        s, o = check_history(ctx, {"ops": case["ops"]}, ctx.subrng("replay"), full=True)
+        ctx.compare("Matryoshka", [s], [o])
+    elif "sb" in case and "props" in case:
+        c = {"sb": case["sb"], "props": case["props"]}
+        if "empty" in case:
+            c["empty"] = case["empty"]
+        s = check_case(ctx, c, ctx.subrng("replay"), full=True)
         ctx.compare("Matryoshka", [s], [g.run_script_impl(s)[1]])
     else:
         run(ctx)
